@@ -1,5 +1,6 @@
 pub mod engine;
 pub mod gen;
+pub mod model;
 pub mod props;
 pub mod run;
 pub mod sxml;
